@@ -508,6 +508,14 @@ func main() {
 	var ins [][]OptD
 	kinds := []string{}
 	add := func(kind string, opts []OptD) { ins = append(ins, opts); kinds = append(kinds, kind) }
+	if o.Only != "" && hx.ReplayPart(o.Only) == "console" {
+		var in ConsIn
+		if err := hx.LoadReplay(o.Only, &in); err != nil {
+			panic(err)
+		}
+		consolePart(o, r, &in)
+		return
+	}
 	if o.Only != "" {
 		var in []OptD
 		if err := hx.LoadReplay(o.Only, &in); err != nil {
@@ -615,4 +623,7 @@ func main() {
 		}
 	}
 	hx.Write(o, "C05", "ev", "From HT Require Import Common.Bytes C05.Model C05.Check.", "case", cases, dist, nil, 300)
+	if o.Only == "" {
+		consolePart(o, r, nil)
+	}
 }
